@@ -40,7 +40,8 @@ type VerifLimitsEnforced struct {
 	ConnWindow, ConnWindowMax                   int64 // connection flow controller: receive window and cap of its size
 	StreamWindowBidiLocal, StreamWindowBidiRemote int64 // receive window a new stream of that kind starts with
 	StreamWindowUni                             int64 // (bidi local = opened by this endpoint)
-	StreamWindowMax                             int64
+	StreamWindowMax                             int64 // cap of the window size of a bidi-local stream …
+	StreamWindowMaxBidiRemote, StreamWindowMaxUni int64 // … of a bidi-remote / unidirectional stream
 	MaxIncomingBidi, MaxIncomingUni             uint64 // incoming stream count limits given to the streams map
 	ConnIDLimit                                 uint64 // bound on the connIDManager's queue: max(MaxActiveConnectionIDs, connIDLimit)
 	Datagrams                                   bool   // frame parser accepts DATAGRAM frames
@@ -90,8 +91,8 @@ func VerifLimitsEnforcedNow(c *Conn) VerifLimitsEnforced {
 			local, remote, uni = 1, 0, 2
 		}
 		e.StreamWindowBidiLocal, _, e.StreamWindowMax, _ = flowcontrol.VerifLimitsReceiveWindow(c.newFlowController(local))
-		e.StreamWindowBidiRemote, _, _, _ = flowcontrol.VerifLimitsReceiveWindow(c.newFlowController(remote))
-		e.StreamWindowUni, _, _, _ = flowcontrol.VerifLimitsReceiveWindow(c.newFlowController(uni))
+		e.StreamWindowBidiRemote, _, e.StreamWindowMaxBidiRemote, _ = flowcontrol.VerifLimitsReceiveWindow(c.newFlowController(remote))
+		e.StreamWindowUni, _, e.StreamWindowMaxUni, _ = flowcontrol.VerifLimitsReceiveWindow(c.newFlowController(uni))
 	}
 	e.MaxIncomingBidi = c.streamsMap.maxIncomingBidiStreams
 	e.MaxIncomingUni = c.streamsMap.maxIncomingUniStreams
